@@ -1,4 +1,5 @@
 From Cell2V Require Import Common.Tac Common.ListX Common.AList C07.Model C07.Spec.
+From Cell2V Require Export C07.ProgProofs.
 
 (* ================= boolean equalities ================= *)
 Lemma pid_eqb_spec (a b : pid) : pid_eqb a b = true <-> a = b.
@@ -541,58 +542,60 @@ Qed.
 Section Hist.
   Variable F : Type.
   Variable interp : F -> rfn.
+  Variable pinterp : F -> rule.
 
   Lemma run_from_app h1 : forall (s : st F) h2,
-    run_from interp s (h1 ++ h2) =
-    (fst (run_from interp (fst (run_from interp s h1)) h2),
-     snd (run_from interp s h1) ++ snd (run_from interp (fst (run_from interp s h1)) h2)).
+    run_from interp pinterp s (h1 ++ h2) =
+    (fst (run_from interp pinterp (fst (run_from interp pinterp s h1)) h2),
+     snd (run_from interp pinterp s h1) ++ snd (run_from interp pinterp (fst (run_from interp pinterp s h1)) h2)).
   Proof.
     induction h1 as [|o r IH]; intros s h2; simpl.
-    - destruct (run_from interp s h2); reflexivity.
-    - rewrite IH. destruct (run_from interp (next s o) r) as [s2 bs]. simpl.
-      destruct (run_from interp s2 h2) as [s3 bs3]. reflexivity.
+    - destruct (run_from interp pinterp s h2); reflexivity.
+    - rewrite IH. destruct (run_from interp pinterp (next s o) r) as [s2 bs]. simpl.
+      destruct (run_from interp pinterp s2 h2) as [s3 bs3]. reflexivity.
   Qed.
 
-  Lemma final_snoc h o : final interp (h ++ [o]) = next (final interp h) o.
+  Lemma final_snoc h o : final interp pinterp (h ++ [o]) = next (final interp pinterp h) o.
   Proof.
     unfold final. rewrite run_from_app. simpl.
-    destruct (run_from interp init h) as [s bs]. reflexivity.
+    destruct (run_from interp pinterp init h) as [s bs]. reflexivity.
   Qed.
 
-  Lemma run_snoc h o : run interp (h ++ [o]) = run interp h ++ [obs_at interp h o].
+  Lemma run_snoc h o : run interp pinterp (h ++ [o]) = run interp pinterp h ++ [obs_at interp pinterp h o].
   Proof.
     unfold run, obs_at, final. rewrite run_from_app. simpl.
-    destruct (run_from interp init h) as [s bs]. reflexivity.
+    destruct (run_from interp pinterp init h) as [s bs]. reflexivity.
   Qed.
 
   Lemma run_cons_from s o r :
-    snd (run_from interp s (o :: r)) =
-    out (reg_of interp s) (dflt_of interp s) (s_view s) o :: snd (run_from interp (next s o) r).
-  Proof. simpl. destruct (run_from interp (next s o) r). reflexivity. Qed.
+    snd (run_from interp pinterp s (o :: r)) =
+    out (reg_of interp s) (dflt_of interp s) (rules_of pinterp s) (pdflt_of pinterp s) (s_view s) o
+    :: snd (run_from interp pinterp (next s o) r).
+  Proof. simpl. destruct (run_from interp pinterp (next s o) r). reflexivity. Qed.
 
   (* the state is the three history functions *)
-  Lemma final_view h : s_view (final interp h) = last_view h.
+  Lemma final_view h : s_view (final interp pinterp h) = last_view h.
   Proof.
     induction h as [|o r IH] using rev_ind; [reflexivity|].
     rewrite final_snoc. unfold last_view. rewrite fold_left_app. simpl.
     fold (last_view r). rewrite <- IH.
-    destruct o as [ty [f|]|d|v|ty p|ty p|rt p|rt p|f|f|ty|ty]; reflexivity.
+    destruct o as [ty [f|]|d|v|ty p|ty p|rt p|rt p|f|f|ty|ty|cs sc]; reflexivity.
   Qed.
 
-  Lemma final_dflt h : s_dflt (final interp h) = dflt_at h.
+  Lemma final_dflt h : s_dflt (final interp pinterp h) = dflt_at h.
   Proof.
     induction h as [|o r IH] using rev_ind; [reflexivity|].
     rewrite final_snoc. unfold dflt_at. rewrite fold_left_app. simpl.
     fold (dflt_at r). rewrite <- IH.
-    destruct o as [ty [f|]|d|v|ty p|ty p|rt p|rt p|f|f|ty|ty]; reflexivity.
+    destruct o as [ty [f|]|d|v|ty p|ty p|rt p|rt p|f|f|ty|ty|cs sc]; reflexivity.
   Qed.
 
-  Lemma final_fns h ty : aget ty (s_fns (final interp h)) = reg_at h ty.
+  Lemma final_fns h ty : aget ty (s_fns (final interp pinterp h)) = reg_at h ty.
   Proof.
     induction h as [|o r IH] using rev_ind; [reflexivity|].
     rewrite final_snoc. unfold reg_at. rewrite fold_left_app. simpl.
     fold (reg_at r ty). rewrite <- IH.
-    destruct o as [t [f|]|d|v|t p|t p|rt p|rt p|f|f|t|t]; try reflexivity; simpl.
+    destruct o as [t [f|]|d|v|t p|t p|rt p|rt p|f|f|t|t|cs sc]; try reflexivity; simpl.
     - destruct (Z.eqb_spec t ty) as [->|N].
       + apply aget_aset_same.
       + apply aget_aset_other. intro E. apply N. symmetry. exact E.
@@ -601,11 +604,17 @@ Section Hist.
       + apply aget_adel_other. intro E. apply N. symmetry. exact E.
   Qed.
 
-  Lemma final_reg h ty : reg_of interp (final interp h) ty = hreg interp h ty.
+  Lemma final_reg h ty : reg_of interp (final interp pinterp h) ty = hreg interp h ty.
   Proof. unfold reg_of, hreg. rewrite final_fns. reflexivity. Qed.
 
-  Lemma final_dflt_of h : dflt_of interp (final interp h) = hdflt interp h.
+  Lemma final_dflt_of h : dflt_of interp (final interp pinterp h) = hdflt interp h.
   Proof. unfold dflt_of, hdflt. rewrite final_dflt, final_view. reflexivity. Qed.
+
+  Lemma final_rules h ty : rules_of pinterp (final interp pinterp h) ty = hrules pinterp h ty.
+  Proof. unfold rules_of, hrules. rewrite final_fns. reflexivity. Qed.
+
+  Lemma final_pdflt_of h : pdflt_of pinterp (final interp pinterp h) = hpdflt pinterp h.
+  Proof. unfold pdflt_of, hpdflt. rewrite final_dflt, final_view. reflexivity. Qed.
 
   (* [out] looks at the registered functions pointwise only *)
   Lemma route_ext reg reg' dflt p ty :
@@ -623,23 +632,40 @@ Section Hist.
     rewrite (route_pid_ext reg reg' dflt v t p E). reflexivity.
   Qed.
 
-  Lemma out_ext reg reg' dflt v (o : op F) :
-    (forall t, reg t = reg' t) -> out reg dflt v o = out reg' dflt v o.
+  Lemma out1_ext reg reg' dflt v (o : op F) :
+    (forall t, reg t = reg' t) -> out1 reg dflt v o = out1 reg' dflt v o.
   Proof.
-    intro E. destruct o as [ty f|d|v'|ty p|ty p|rt p|rt p|f|f|ty|ty]; simpl; try reflexivity.
+    intro E. destruct o as [ty f|d|v'|ty p|ty p|rt p|rt p|f|f|ty|ty|cs sc]; simpl; try reflexivity.
     - rewrite (route_ext reg reg' dflt p ty E). reflexivity.
     - rewrite (route_pid_ext reg reg' dflt v ty p E). reflexivity.
     - rewrite (call_ext reg reg' dflt v true rt p E). reflexivity.
     - rewrite (call_ext reg reg' dflt v false rt p E). reflexivity.
   Qed.
 
+  Lemma out_ext reg reg' dflt rules rules' pdflt v (o : op F) :
+    (forall t, reg t = reg' t) -> (forall t, rules t = rules' t) ->
+    out reg dflt rules pdflt v o = out reg' dflt rules' pdflt v o.
+  Proof.
+    intros E E2.
+    destruct o as [ty f|d|v'|ty p|ty p|rt p|rt p|f|f|ty|ty|cs sc];
+      try (apply (out1_ext reg reg' dflt v _ E)).
+    cbn [out]. f_equal. apply map_ext. intro c.
+    rewrite (out1_ext reg reg' dflt v _ E), (call_trace_ext rules rules' pdflt c E2). reflexivity.
+  Qed.
+
   (* C07_view_updates *)
   Lemma obs_at_history h o :
-    obs_at interp h o = out (hreg interp h) (hdflt interp h) (last_view h) o.
+    obs_at interp pinterp h o =
+    out (hreg interp h) (hdflt interp h) (hrules pinterp h) (hpdflt pinterp h) (last_view h) o.
   Proof.
-    unfold obs_at, step. simpl. rewrite final_dflt_of, final_view.
-    apply out_ext. apply final_reg.
+    unfold obs_at, step. simpl. rewrite final_dflt_of, final_pdflt_of, final_view.
+    apply out_ext; [apply final_reg | apply final_rules].
   Qed.
+
+  (* the schedule of calls in flight together does not matter *)
+  Lemma out_schedule_irrelevant reg dflt rules pdflt v cs s1 s2 :
+    out reg dflt rules pdflt v (@OCalls F cs s1) = out reg dflt rules pdflt v (@OCalls F cs s2).
+  Proof. reflexivity. Qed.
 
   Lemma last_view_update (h : list (op F)) v : last_view (h ++ [OUpdate v]) = v.
   Proof. unfold last_view. rewrite fold_left_app. reflexivity. Qed.
@@ -702,12 +728,12 @@ Section Hist.
     intro A. apply admissible_b_spec. apply front_sound. apply admissible_b_spec. exact A.
   Qed.
 
-  Lemma monitor_step h o b :
-    admits (obs_at interp h o) b = true -> op_ok_b interp h o b = true.
+  Lemma monitor_step1 h o b :
+    admits1 (out1 (hreg interp h) (hdflt interp h) (last_view h) o) b = true ->
+    op_ok1 interp h o b = true.
   Proof.
-    rewrite obs_at_history.
-    destruct o as [ty f|d|v'|ty p|ty p|rt p|rt p|f|f|ty|ty]; simpl;
-      destruct b as [|n|po|evs|l|]; simpl; try discriminate; try (intro; reflexivity).
+    destruct o as [ty f|d|v'|ty p|ty p|rt p|rt p|f|f|ty|ty|cs sc]; simpl;
+      destruct b as [|n|po|evs|l| |l]; simpl; try discriminate; try (intro; reflexivity).
     - (* Route *) intro E. apply Z.eqb_eq in E. subst. apply Z.eqb_refl.
     - (* RoutePID *)
       rewrite route_pid_known.
@@ -728,13 +754,38 @@ Section Hist.
     - (* List *) intro H. apply zlist_eqb_spec in H. apply zlist_eqb_spec. symmetry. exact H.
   Qed.
 
+  Lemma monitor_calls h : forall cs l,
+    all2b admits_call
+      (map (fun c => (out1 (hreg interp h) (hdflt interp h) (last_view h) (@op_of_call F c),
+                      call_trace (hrules pinterp h) (hpdflt pinterp h) c)) cs) l = true ->
+    all2b (call_ok_b interp h) cs l = true.
+  Proof.
+    induction cs as [|c r IH]; intros [|y l]; cbn [map all2b]; try discriminate; try reflexivity.
+    rewrite !andb_true_iff. intros [AC R]. split; [|apply IH; exact R].
+    unfold admits_call in AC. cbn [fst snd] in AC. apply andb_true_iff in AC. destruct AC as [A T].
+    unfold call_ok_b. apply andb_true_iff. split.
+    - apply monitor_step1. exact A.
+    - destruct (call_trace (hrules pinterp h) (hpdflt pinterp h) c) as [t|] eqn:CT; [|discriminate].
+      apply seen_list_eqb_spec in T. subst t.
+      apply call_sees_own_b_spec. eapply call_trace_sees_own. exact CT.
+  Qed.
+
+  Lemma monitor_step h o b :
+    admits (obs_at interp pinterp h o) b = true -> op_ok_b interp h o b = true.
+  Proof.
+    rewrite obs_at_history.
+    destruct o as [ty f|d|v'|ty p|ty p|rt p|rt p|f|f|ty|ty|cs sc];
+      try (destruct b as [|n|po|evs|l| |l]; try discriminate; apply monitor_step1).
+    destruct b as [|n|po|evs|l| |l]; try discriminate. apply monitor_calls.
+  Qed.
+
   Lemma monitor_all_from : forall ops hist bs,
-    admits_all (snd (run_from interp (final interp hist) ops)) bs = true ->
+    admits_all (snd (run_from interp pinterp (final interp pinterp hist) ops)) bs = true ->
     monitor_from interp hist ops bs = true.
   Proof.
     induction ops as [|o r IH]; intros hist bs; simpl.
     - destruct bs; [reflexivity | discriminate].
-    - destruct (run_from interp (next (final interp hist) o) r) as [s2 ms] eqn:E. simpl.
+    - destruct (run_from interp pinterp (next (final interp pinterp hist) o) r) as [s2 ms] eqn:E. simpl.
       destruct bs as [|b br]; [discriminate|]. rewrite andb_true_iff. intros [A R].
       apply andb_true_iff. split.
       + apply monitor_step. exact A.
@@ -742,7 +793,7 @@ Section Hist.
   Qed.
 
   Lemma monitor_all ops bs :
-    admits_all (run interp ops) bs = true -> monitor_from interp [] ops bs = true.
+    admits_all (run interp pinterp ops) bs = true -> monitor_from interp [] ops bs = true.
   Proof. apply (monitor_all_from ops []). Qed.
 End Hist.
 
